@@ -22,6 +22,30 @@ pub fn mirror(c: &Compound) -> Mirror {
     mirror_from_cbor(&v).expect("Compound has the documented shape")
 }
 
+/// How this build writes the eight base units as map keys (today the variant names: "Meter"): observed once by
+/// serialising the compound each base symbol parses to, so that a build which writes them under other names
+/// (and still reads the documented ones) can be observed all the same.
+fn base_key_names() -> &'static BTreeMap<String, String> {
+    static M: std::sync::OnceLock<BTreeMap<String, String>> = std::sync::OnceLock::new();
+    M.get_or_init(|| {
+        let mut m = BTreeMap::new();
+        for (symbol, variant) in [("kg", "KiloGram"), ("cd", "Candela"), ("m", "Meter"), ("s", "Second"), ("A", "Ampere"), ("K", "Kelvin"), ("mol", "Mole"), ("B", "Byte")] {
+            let written = symbol.parse::<Compound>().ok().and_then(|c| serde_cbor::value::to_value(&c).ok()).and_then(|v| match v {
+                Cbor::Map(top) => match top.get(&Cbor::Text("names".into())) {
+                    Some(Cbor::Map(names)) if names.len() == 1 => match names.keys().next() {
+                        Some(Cbor::Text(t)) => Some(t.clone()),
+                        _ => None,
+                    },
+                    _ => None,
+                },
+                _ => None,
+            });
+            m.insert(written.unwrap_or_else(|| variant.to_string()), variant.to_string());
+        }
+        m
+    })
+}
+
 pub fn mirror_from_cbor(v: &Cbor) -> Option<Mirror> {
     let mut out = Mirror::new();
     let top = match v {
@@ -35,8 +59,9 @@ pub fn mirror_from_cbor(v: &Cbor) -> Option<Mirror> {
     };
     for (k, st) in names {
         let key = match k {
-            Cbor::Text(t) => UKey::Base(t.clone()),
-            Cbor::Map(m) => match m.get(&Cbor::Text("Derived".into()))? {
+            Cbor::Text(t) => UKey::Base(base_key_names().get(t).cloned().unwrap_or_else(|| t.clone())),
+            // {"Derived": id} — whatever the tag is called
+            Cbor::Map(m) if m.len() == 1 => match m.values().next()? {
                 Cbor::Integer(i) => UKey::Derived(*i as u32),
                 _ => return None,
             },
